@@ -109,23 +109,6 @@ Proof.
 Qed.
 
 (* ------------------------------------------------------------------------------------------ *)
-(* a `for` loop with an invariant *)
-Lemma ev_for_inv P d i b (Inv : nat -> env -> Prop) : forall n k en,
-  Inv k en ->
-  (forall j en', k <= j < k + n -> Inv j en' ->
-     exists v en2, evals P d b ((i, VNat j) :: en') (CVal v, en2) /\ Inv (S j) (leave en' en2)) ->
-  exists enf, evals_for P d i k n b en (CVal VUnit, enf) /\ Inv (k + n) enf.
-Proof.
-  induction n as [|n IH]; intros k en HI Hstep.
-  - exists en. split; [apply ev_for_nil|]. rewrite Nat.add_0_r. exact HI.
-  - destruct (Hstep k en ltac:(lia) HI) as (v & en2 & Hb & HI2).
-    destruct (IH (S k) (leave en en2) HI2) as (enf & Hf & HIf).
-    + intros j en' Hj. apply Hstep. lia.
-    + exists enf. split.
-      * eapply ev_for_step; [exact Hb | reflexivity | reflexivity | exact Hf].
-      * replace (k + S n) with (S k + n) by lia. exact HIf.
-Qed.
-
 Definition resp_val (ms attrs events : list value) (data : value) : value :=
   VRec "Response" [("messages", VArr ms); ("attributes", VArr attrs); ("events", VArr events); ("data", data)].
 
